@@ -82,8 +82,7 @@ func (pnf *PageNumberFinder) FindPagination(root *html.Node, pageURL *nurl.URL) 
 
 	url := *pageURL
 	url.User = nil // the parameter detector drops the user info as well
-	url.Path = strings.TrimSuffix(url.Path, "/")
-	url.RawPath = url.Path
+	stringutil.TrimTrailingSlash(&url)
 	// The page infos hold escaped URLs (URL.String()), so the page URL they
 	// are compared with must be in the same form.
 	strPageURL := url.String()
@@ -218,8 +217,9 @@ func (pnf *PageNumberFinder) getPageInfoAndText(link *html.Node, pageURL *nurl.U
 			return nil, ""
 		}
 
-		hrefURL.Path = strings.TrimSuffix(hrefURL.Path, "/")
-		hrefURL.RawPath = hrefURL.Path
+		// Keep the encoded form of the path: with the reserved characters in
+		// it decoded (%2F, %3F, %25 ...) the URL names another resource.
+		stringutil.TrimTrailingSlash(hrefURL)
 		hrefURL.Fragment = ""
 		hrefURL.RawFragment = ""
 	}
